@@ -7,12 +7,14 @@ R3 recursion only through nesting: every cycle of the production call graph pass
    opening construct ('(' / function call) or the exponent edge; a level that recurses into itself per operator
    overflows the stack on flat input.
 R4 no sticky state: after any parse (failing or not) the same parser answers the next parse like a fresh one.
+R5 near-miss inputs beyond the exhaustive bound.   R6 Function tokens carry keys of the table the parser indexes.
 """
 from __future__ import annotations
 
 import ast
 from typing import Dict, List, Set, Tuple
 
+from sa.absint import Interp
 from sa.model import Program, unparse
 from sa.parsecases import analyse_parser, analyse_scenarios
 from sa.report import Check, REPO
@@ -173,6 +175,64 @@ def run_sticky(chk: Check, scen: List[dict], pid: str = "C10", rid: str = "R4",
             chk.undecided(f"{pid}.{rid}", key + ":bound", label, str(r.get("note")), where)
 
 
+def run_function_tokens(chk: Check, prog: Program) -> None:
+    """The parser indexes the function table with the text of a Function token (a miss is a KeyError, outside the
+    contract), and the token-stream analysis above draws Function tokens from that table: the tokenizer, interpreted
+    on symbolic letter runs, must give the Function type only to texts that are keys of the table."""
+    import itertools
+    from sa.absint import Dct, Lst, Rec, SymStr, explore
+    from sa.model import const_fold
+    from .c11 import _instantiate, representatives
+    chk.rule("C10.R6", "every Function token the tokenizer can emit carries a key of the function table the parser indexes",
+             minimum=20)
+    tok_cls = prog.cls("Tokenizer")
+    m = prog.func("tokenizer", "Tokenizer.tokenize")
+    tt = prog.cls("TOKEN_TYPES")
+    fn_type = const_fold(prog, tt.module, tt.class_attrs["Function"])
+    lookups = [n for f in prog.cls("ExpressionParser").methods.values() for n in ast.walk(f.node)
+               if isinstance(n, ast.Subscript) and isinstance(n.value, ast.Attribute) and n.value.attr == "functions"]
+    chk.analysed["function_table_lookups_in_parser"] = len(lookups)
+    names = None
+    for length in (3, 4):
+        def body(it: Interp, length=length):
+            t = it.instantiate(tok_cls, [], {"exclude_padding": True})
+            it.tok = t
+            fdict = t.fields.get("functions")
+            keys = [k for k in fdict.items if isinstance(k, str)] if isinstance(fdict, Dct) else []
+            letters = "".join(sorted(set("".join(keys)))) or "f"
+            it.alphabet = frozenset(letters + letters.upper() + "x(")
+            it.chars = [it.new_char(it.alphabet) for _ in range(length)]
+            return it.call_function(m, [t, SymStr(it.chars)], {})
+        for p in explore(prog, body, {"max_updepth": 0, "time_budget": 120}, max_paths=60000):
+            it = p.interp
+            if p.outcome != "return" or not isinstance(p.value, Lst):
+                continue
+            fdict = it.tok.fields.get("functions")
+            keys = [k for k in fdict.items if isinstance(k, str)] if isinstance(fdict, Dct) else []
+            has_fn = [t for t in p.value.items if isinstance(t, Rec) and t.fields.get("type") == fn_type]
+            label = f"len={length} path: {p.cond[-200:]}"
+            if not has_fn:
+                chk.ok("C10.R6", "C10.R6:Tokenizer.tokenize:function-token-text", label, "no Function token", m.where)
+                continue
+            reps = [representatives(it.charsets[c.cid], it.alphabet) for c in it.chars]
+            bad = None
+            for combo in itertools.islice(itertools.product(*reps), 400):
+                got = _instantiate(it, p.value, dict(zip([c.cid for c in it.chars], combo)))
+                if isinstance(got, str):
+                    bad = ("".join(combo), got)
+                    break
+                for val, typ in got:
+                    if typ == fn_type and val not in keys:
+                        bad = ("".join(combo), val)
+                        break
+                if bad:
+                    break
+            chk.verdict(bad is None, "C10.R6", "C10.R6:Tokenizer.tokenize:function-token-text", label,
+                        "" if bad is None else f"input {bad[0]!r}: Function token {bad[1]!r} is not a key of the function table "
+                        f"{keys}: the parser's table lookup raises KeyError",
+                        witness=None if bad is None else {"input": bad[0], "token": bad[1], "table": keys}, where=m.where)
+
+
 def run(chk: Check) -> None:
     prog = program(chk)
     n = 5 if chk.tier == "quick" else 6
@@ -185,7 +245,9 @@ def run(chk: Check) -> None:
         "parse_mult -> parse_mult can: known finding, RecursionError on long flat products); in the history scenarios "
         "parse;parse, parse;parse;parse, parse;clear;parse, tokenize;parse, tokenize;consume;parse, parse(other);parse "
         "(first call failing or succeeding, all token sequences of length 2/3) the used parser answers exactly like a "
-        "fresh one. Not decided: termination beyond the bound; tokenizer totality (C11).")
+        "fresh one; the tokenizer gives the Function type only to texts that are keys of the table the parser indexes "
+        "(letter runs of 3-4 symbolic characters over the table's letters in both cases). Not decided: termination "
+        "beyond the bound; tokenizer totality (C11).")
     chk.assumptions = [f"token sequence length <= {n}; scenario texts of 2 (quick) / 3 (thorough) tokens",
                        "tokenizer contract from C11"]
     recs = analyse_parser(str(REPO), n)
@@ -193,6 +255,7 @@ def run(chk: Check) -> None:
     run_contract(chk, recs)
     run_near_misses(chk, (6,) if chk.tier == "quick" else (6, 7))
     run_recursion(chk, prog)
+    run_function_tokens(chk, prog)
     scen = analyse_scenarios(str(REPO), 2 if chk.tier == "quick" else 3)
     chk.analysed["scenario_paths"] = len(scen)
     run_sticky(chk, scen)
